@@ -12,7 +12,7 @@ RULE = ("Uniquely named sequences (2..25 generated sets; one case in six is tall
         "alignments), 'same' (test = reference with rows permuted and all-gap columns inserted, expected score 100) and "
         "'perturbed' (test = reference with a few residues shifted). Oracle: independent python implementation of the "
         "definition - over ordered pairs of sequences and residues, the partner-or-gap in the reference vs the test - with "
-        "score == float32(100.0*hits/total) exactly (the double quotient rounded once to the float that is returned); 0 <= score <= 100; equal score after permuting the rows of either argument. "
+        "score == float32(100.0*hits/total) exactly (the double quotient rounded once to the float that is returned); 0 <= score <= 100; equal score after permuting the rows of either argument; a third of the cases repeat the call 3 or 12 times with a drawn OMP_NUM_THREADS (1, 2, 8, 16, default) and all results must be equal. extra(): comparisons of 400x12, 120x40 and 30x200 (rows x columns) alignments under ThreadSanitizer + Archer with a 4-thread team (a data-race report with a kalign frame is a violation) and 40 repetitions on the un-sanitised build with 8 threads (one value, the defined one). "
         "Non-trivial = 0 < score < 100; class identical_up_to_order_and_gap_columns.")
 ASSUMPTIONS = ["files contain at least one gap character (a gap-free file is by design not recognised as an alignment)",
                "names unique, from [A-Za-z0-9_.|-], <= 30 characters"]
@@ -160,7 +160,10 @@ def cases(draw, tier):
         return {"how": draw(st.sampled_from(["run", "fasta", "msf", "clu"])), "seed": draw(st.integers(0, 2 ** 32 - 1)),
                 "extra": draw(st.sampled_from([0, 1, 5, 30])), "perm_seed": draw(st.integers(0, 2 ** 16))}
     return {"names": names, "seqs": seqs, "kind": ss["kind"], "mode": mode, "ref": side(), "test": side(),
-            "type": draw(gen.types_for(ss["kind"])), "perm2": draw(st.integers(0, 2 ** 16))}
+            "type": draw(gen.types_for(ss["kind"])), "perm2": draw(st.integers(0, 2 ** 16)),
+            # the score is a pure function of the two alignments: the same call repeated, with whatever team size the OpenMP
+            # runtime has, must return the same number every time
+            "reps": draw(st.sampled_from([1, 1, 1, 3, 12])), "omp": draw(st.sampled_from([None, None, "1", "2", "8", "16"]))}
 
 
 def strategy(tier):
@@ -174,6 +177,8 @@ def _shuffled(names, rows, seed):
 
 
 def check(case):
+    if case.get("leg") == "race":
+        return check_race(case)
     names, seqs = case["names"], case["seqs"]
     n = len(seqs)
     if n < 2 or len(set(names)) != n:
@@ -224,8 +229,9 @@ def check(case):
         side_r = dict(case["ref"], how=case["ref"]["how"] if case["ref"]["how"] != "run" else "fasta")
         side_t = dict(case["test"], how=case["test"]["how"] if case["test"]["how"] != "run" else "clu")
         lines = load(0, side_r, ref_rows) + load(1, side_t, test_rows)
-    lines += ["compare 0 1", "free 0", "free 1"]
-    pr = runner.run_probe(lines)
+    reps = max(1, int(case.get("reps", 1)))
+    lines += ["compare 0 1"] * reps + ["free 0", "free 1"]
+    pr = runner.run_probe(lines, env={"OMP_NUM_THREADS": case["omp"]} if case.get("omp") else None)
     if pr.ended.bad or pr.ended.rc != 0 or pr.steps is None or len(pr.steps) != len(lines):
         if pr.ended.kind == "hang":
             return engine.discard("cpu-limit")
@@ -241,6 +247,12 @@ def check(case):
             [x.replace("-", "") for x in tr] != [seqs[names.index(nm)] for nm in tn]:
         return engine.discard("loaded residues differ (C04/C06 territory)")
     cmp_ = s[6]
+    if reps > 1:
+        cl.append("repeated_call")
+        got_all = [(x.get("rc"), x.get("score")) for x in s[6:6 + reps]]
+        if len(set(got_all)) != 1:
+            return engine.violation({"what": "the same kalign_msa_compare call repeated %d times returned different results" % reps,
+                                     "results": got_all[:12], "OMP_NUM_THREADS": case.get("omp")}, classes=cl)
     if cmp_["rc"] != 0:
         return engine.violation({"what": "kalign_msa_compare failed on two alignments of the same uniquely named sequences", "rc": cmp_["rc"]},
                                 classes=cl, kind="status")
@@ -261,3 +273,68 @@ def check(case):
         if got != 100.0:
             return engine.violation({"what": "same alignment up to row order / all-gap columns scores %r" % got}, classes=cl)
     return engine.ok(0 < got < 100, cl, {"names": names[:3], "ref": rr[:2], "test": tr[:2], "score": got, "hits": hits, "total": total})
+
+
+# ------------------------------------------------------------------ ThreadSanitizer leg
+
+def check_race(case):
+    """kalign_msa_compare under ThreadSanitizer + Archer (clang/libomp build) with a 4-thread team, on many cheap rows
+    (where unsynchronised per-row bookkeeping would collide): a data-race report with a kalign frame is a violation; and the
+    same call 40 times on the un-sanitised build with 8 threads must return one value, the defined one."""
+    import os
+    import numpy as np
+    names, ref, n2, t2 = case["names"], case["ref_rows"], case["test_names"], case["test_rows"]
+    archer = "/usr/lib/llvm-14/lib/libarcher.so"
+    env = {"OMP_NUM_THREADS": "4", "OMP_WAIT_POLICY": "passive"}
+    if os.path.exists(archer):
+        env["OMP_TOOL_LIBRARIES"] = archer
+    wd = runner.workdir()
+    f0 = wd.write(formats.write_fasta(names, ref, width=60).encode("latin-1"), ".afa")
+    f1 = wd.write(formats.write_fasta(n2, t2, width=60).encode("latin-1"), ".afa")
+    load = ["read 0 1 %s" % f0, "finalise 0", "read 1 1 %s" % f1, "finalise 1"]
+    cl = ["leg=race", "rows=%d" % len(names)]
+    pr = runner.run_probe(load + ["compare 0 1"] * 4 + ["free 0", "free 1"], variant="tsan", env=env, cpu=600)
+    err = pr.ended.err or ""
+    if "WARNING: ThreadSanitizer: data race" in err and ("/repo/" in err or "kalign" in err or "msa_cmp" in err):
+        return engine.violation({"what": "ThreadSanitizer data race in kalign_msa_compare", "stderr": err[:2500]}, classes=cl, kind="tsan")
+    tsan_ok = not (pr.ended.kind.startswith("signal") or pr.ended.kind == "hang")
+    pr = runner.run_probe(load + ["compare 0 1"] * 40 + ["free 0", "free 1"], variant="plain", env={"OMP_NUM_THREADS": "8"}, cpu=600)
+    if pr.ended.bad or pr.steps is None or len(pr.steps) != 46:
+        return engine.violation({"what": "process failure in the repeated comparison", **pr.ended.brief()}, classes=cl, kind="crash")
+    got = sorted(set((x.get("rc"), x.get("score")) for x in pr.steps[4:44]))
+    hits, total = score_ref(names, ref, n2, t2)
+    want = np.float32(100.0 * hits / total)
+    if len(got) != 1 or got[0][0] != 0 or np.float32(got[0][1]) != want:
+        return engine.violation({"what": "40 repetitions of one comparison (%d rows x %d columns, 8 threads) returned %r, the definition gives %r" %
+                                 (len(names), len(ref[0]), got[:6], float(want))}, classes=cl)
+    return engine.ok(True, cl + (["tsan_clean"] if tsan_ok else ["tsan_inconclusive"]), {"rows": len(names), "cols": len(ref[0]), "score": float(want)},
+                     key="race:%dx%d" % (len(names), len(ref[0])))
+
+
+def extra(tier, seed, stats):
+    out = []
+    rnd = random.Random(seed * 13 + 1)
+    shapes = [(400, 12), (120, 40), (30, 200)] if tier == "quick" else [(400, 12), (800, 8), (120, 40), (60, 120), (30, 200), (250, 30)]
+    for n, L in shapes:
+        alpha = gen.AA if n % 20 else gen.NUC
+        anc = [rnd.choice(alpha) for _ in range(L)]
+        seqs = []
+        for i in range(n):
+            t = [c if rnd.random() > 0.2 else rnd.choice(alpha) for c in anc]
+            if i % 3 == 0 and len(t) > 3:
+                del t[rnd.randrange(len(t))]
+            seqs.append("".join(t))
+        names = ["r%d" % i for i in range(n)]
+        ref = random_alignment(seqs, rnd.randrange(2 ** 32), 3)
+        test = perturb(ref, rnd.randrange(2 ** 32))
+        if not any("-" in x for x in ref):
+            ref = [x + "-" for x in ref]
+        if not any("-" in x for x in test):
+            test = [x + "-" for x in test]
+        n2, t2 = _shuffled(names, test, 7)
+        case = {"leg": "race", "names": names, "ref_rows": ref, "test_names": n2, "test_rows": t2}
+        r = check_race(case)
+        stats.record(case, r)
+        if r["status"] == "violation":
+            out.append({"case": case, "detail": r["detail"], "kind": r.get("kind")})
+    return out
